@@ -184,6 +184,15 @@ Theorem C08_rejected_call_changes_nothing : forall c n s o s' e,
 Proof. exact C18_legacygrid_atomic. Qed.
 Print Assumptions C08_rejected_call_changes_nothing.
 
+(* --- why fixes/C08-2 is needed: the inherited _Grid.move_agent (torus_adj; remove; place), which the
+       unchanged tree runs on a SingleGrid, is refuted as an atomic operation (defect #8) *)
+Theorem C08_unpatched_single_move_agent_atomic_refuted :
+  exists c s a p s' e,
+    Agree c s /\ c_multi c = false /\ grid_move_agent c s a p = (s', Err e) /\
+    obs_state c 2 s' <> obs_state c 2 s /\ pos s' a = None.
+Proof. exact unpatched_move_agent_not_atomic. Qed.
+Print Assumptions C08_unpatched_single_move_agent_atomic_refuted.
+
 (* --- ... and every continuation of the history is observed as if the call had not been made *)
 Theorem C08_rejected_call_continue : forall c n s o s' e rest,
   wf c -> Agree c s -> step c s o = (s', Err e) -> run_obs c n s' rest = run_obs c n s rest.
